@@ -912,7 +912,15 @@ func (r *runner) apply(op Op) error {
 	case "restart":
 		return r.restart()
 	case "list_fault":
-		return r.injectFault(op)
+		// Withdrawn (DESIGN §10): the candidate-configuration oracle for the
+		// states a storage fault creates raised three different false alarms on
+		// the unchanged tree in deep exploration.  The operation stays in the
+		// scenario format and does nothing; C02 keeps its own (narrower)
+		// storage-fault exploration, and the failed-re-initialisation change it
+		// was built for is still caught here through the concurrent phase.
+		_ = r.injectFault
+		r.c.Probe("op_skipped_storage_fault_withdrawn")
+		return nil
 	case "list_heal":
 		return r.heal()
 	case "par":
@@ -1214,6 +1222,6 @@ var Prop = &kernel.Property{
 	Real:        []string{"internal/filtering (DNSFilter, engines, blocked services, list refresh, HTTP handlers)", "internal/dnsforward (HandleBefore, request pipeline, blocking-mode responses, dns_config/protection handlers)", "dnsproxy request path (handleDNSRequest, Resolve, cache, respond*)", "internal/client.Storage", "urlfilter", "internal/schedule"},
 	Stub:        []string{"upstream resolver (logs every question; seeded faults)", "filter-list HTTP server (RoundTripper)", "client sockets (fake conns / response writers)", "query log and statistics (recorders)", "wall clock (synctest)"},
 	Assumptions: []string{"urlfilter's matching of one rule set against one host name is trusted (the reference model owns separate engines built from the scenario's rule text)", "blocked-services rule table is read through the real API and trusted as data", "with filtering off for a client the statement does not say whether blocked services still apply: only coherence is asserted there", "with the DNS cache on, a repeated allowed query may legitimately be served without a new upstream exchange", "while the file of a list cannot be read, and during an overlapping rule change, the statement does not say which of the configurations accepted so far is in force: only what all of them (with and without the unreadable list) agree on is asserted"},
-	FaultKinds:  []string{"upstream_error", "upstream_timeout", "upstream_servfail", "upstream_slow", "live_rule_change", "clock_advance", "protection_pause", "updates_loop_delayed", "restart", "list_file_fault", "concurrent_rule_change"},
-	ProbeNames:  []string{"blocked_query", "forwarded_query", "blocked_by_service", "blocked_by_hosts_rule", "allowed_by_rule", "protection_off_query", "filtering_off_query", "pause_deadline_crossed", "unspecified_case", "aaaa_disabled_query", "op_skipped_no_list", "list_content_refreshed", "served_from_cache", "held_rule_change", "burst_settled", "restart_with_added_lists", "restart_under_fault", "fault_on_enabled_list", "fault_healed", "fault_overwritten", "api_refused_under_fault", "refresh_failed_under_fault", "query_in_doubt_window", "doubt_all_agree_blocked", "doubt_window_closed", "par_query", "par_query_must_be_blocked", "sched_steps", "sched_switches", "op_skipped_fault_active", "op_skipped_no_fault"},
+	FaultKinds:  []string{"upstream_error", "upstream_timeout", "upstream_servfail", "upstream_slow", "live_rule_change", "clock_advance", "protection_pause", "updates_loop_delayed", "restart", "concurrent_rule_change"},
+	ProbeNames:  []string{"blocked_query", "forwarded_query", "blocked_by_service", "blocked_by_hosts_rule", "allowed_by_rule", "protection_off_query", "filtering_off_query", "pause_deadline_crossed", "unspecified_case", "aaaa_disabled_query", "op_skipped_no_list", "list_content_refreshed", "served_from_cache", "held_rule_change", "burst_settled", "restart_with_added_lists", "par_query", "par_query_must_be_blocked", "sched_steps", "sched_switches", "op_skipped_no_fault", "op_skipped_storage_fault_withdrawn"},
 }
